@@ -241,6 +241,8 @@ def run(ctx):
                 [{"kind": "delay", "api": "ListOffsets", "seconds": 0.7, "nth": 0}],
             ]
             chosen = fault_sets if ctx.thorough else [fault_sets[(ci + k + ctx.seed) % len(fault_sets)] for k in (0, 3)]
+            if not ctx.thorough and cfg["group"] and ci % 3 == ctx.seed % 3 and fault_sets[3] not in chosen:
+                chosen = chosen + [fault_sets[3]]
             for fs in chosen:
                 if not cfg["group"] and any(f["api"] in ("OffsetFetch", "FindCoordinator") for f in fs):
                     continue
@@ -248,6 +250,10 @@ def run(ctx):
                 plans.append(fb)
                 if ctx.thorough or fs[0]["kind"] == "delay":
                     fb["_expand"] = True
+                if fs[0]["api"] == "OffsetFetch" and fs[0]["kind"] == "error":
+                    # the same against a broker that only speaks OffsetFetch v1: group-level errors come as
+                    # per-partition error codes there (v2+ brokers put them into the top-level field only)
+                    plans.append(dict(base, faults=fs, wait=5.0, api_versions={"OffsetFetch": [1, 1]}, of_version=1))
         if ctx.thorough:
             for ci, cfg in enumerate(cfgs):
                 if cfg["group"]:
